@@ -209,24 +209,49 @@ def trimRightWs (s : String) : String := String.ofList (s.toList.reverse.dropWhi
 /-- the separator the debug mode writes after block-level nodes: `     {{- "" -}}\n` -/
 def debugSep : List Frag := [.text "     ", .act true true (.print (.lit (.str "")) false), .text "\n"]
 
-/-- Node.Inline() (pug_blocks.go) -/
-partial def nodeInline : Node → Bool
-  | .tag _ isInline .. => isInline
-  | .codeBuf _ _ isInline => isInline
-  | .codeRaw _ isInline => isInline
-  | .text _ | .doctype _ | .cond .. | .mixinBlock => true
-  | .each _ _ _ kids | .while _ kids | .mixinDef _ _ kids | .mixinCall _ _ _ kids => kids.all nodeInline
-  | .case _ whens => whens.all fun w => w.2.all nodeInline
+/-- Node.Inline() (pug_blocks.go); recursion on the fuel -/
+def nodeInlineF : Nat → Node → Bool
+  | 0, _ => true
+  | fuel + 1, n =>
+    match n with
+    | .tag _ isInline .. => isInline
+    | .codeBuf _ _ isInline => isInline
+    | .codeRaw _ isInline => isInline
+    | .text _ | .doctype _ | .cond .. | .mixinBlock => true
+    | .each _ _ _ kids | .while _ kids | .mixinDef _ _ kids | .mixinCall _ _ _ kids => kids.all (nodeInlineF fuel)
+    | .case _ whens => whens.all fun w => w.2.all (nodeInlineF fuel)
+
+/-- fuel of the node-level functions: far above any nesting in use -/
+def nodeFuel : Nat := 100000
+
+def nodeInline (n : Node) : Bool := nodeInlineF nodeFuel n
+
+def compileAttrs (env : CEnv) (attrs : List Attr) (ablocks : List String) : CM (List Frag) := do
+  if attrs.isEmpty && ablocks.isEmpty then pure [] else
+  let as ← attrs.mapM fun a => do
+    if a.mustEscape then
+      let t ← match ← compileExpr env a.val with
+        | some t => pure t
+        | none => pure nullCall    -- a literal null: `(__attr "n" null true)`
+      pure (TExpr.fcall "__attr" [.lit (.str a.name), t, .lit (.bool true)])
+    else
+      match a.val with
+      | .str s => pure (TExpr.fcall "__attr" [.lit (.str a.name), .lit (.str ("\"" ++ s ++ "\"")), .lit (.bool false)])
+      | _ => .error (.domain "unescaped attribute with a non-literal value (value becomes the source text)")
+  let bs := ablocks.map fun b => TExpr.fcall "__and_attrs" [.var b]
+  pure [.act false false (.print (.fcall "__attrs" (as ++ bs)) false)]
 
 mutual
-partial def compileNode (env : CEnv) (n : Node) : CM (List Frag) := do
+def compileNodeF : Nat → CEnv → Node → CM (List Frag)
+  | 0, _, _ => .error (.domain "document nested deeper than the model's fuel")
+  | fuel + 1, env, n => do
   match n with
   | .text s => textFrag s
   | .doctype v => pure [.text ("<!DOCTYPE " ++ v ++ ">\n")]
   | .codeBuf e esc _ => compileBuffered env e esc
   | .codeRaw stmts _ => do pure (← stmts.mapM (compileStmt env)).flatten
   | .tag name isInline attrs ablocks kids => do
-    let sub ← compileNodes env kids
+    let sub ← compileNodesF fuel env kids
     let attrFrags ← compileAttrs env attrs ablocks
     let open_ := [Frag.text ("<" ++ name)] ++ attrFrags ++ [Frag.text ">"]
     let close := Frag.text ("</" ++ name ++ ">")
@@ -241,19 +266,19 @@ partial def compileNode (env : CEnv) (n : Node) : CM (List Frag) := do
     pure (if !isInline && env.debug then body ++ debugSep else body)
   | .cond test thn els => do
     let some t ← compileExpr env test | .error (.domain "null test")
-    let thnF ← compileNodes env thn
+    let thnF ← compileNodesF fuel env thn
     let elsF ← match els with
       | none => pure []
-      | some ns => do pure ([Frag.act false true .else_] ++ (← compileNodes env ns))
+      | some ns => do pure ([Frag.act false true .else_] ++ (← compileNodesF fuel env ns))
     pure ([.act false true (.ifStart t)] ++ thnF ++ elsF ++ [.act false true .end_])
   | .each val key obj kids => do
     let some t ← compileExpr env obj | .error (.domain "null collection")
-    let body ← compileNodes env kids
+    let body ← compileNodesF fuel env kids
     let decl := if key == "" then [val] else [key, val]
     pure ([.act false true (.range decl t)] ++ body ++ [.act false true .end_])
   | .while test kids => do
     let some t ← compileExpr env test | .error (.domain "null test")
-    let body ← compileNodes env kids
+    let body ← compileNodesF fuel env kids
     pure ([.act false true (.range [] t)] ++ body ++ [.act false true .end_])
   | .case e whens => do
     if whens.isEmpty then .error (.domain "case with zero cases") else
@@ -268,11 +293,11 @@ partial def compileNode (env : CEnv) (n : Node) : CM (List Frag) := do
       let some we := w | continue
       let some tw ← compileExpr env we | .error (.domain "null when expression")
       let c := TExpr.fcall "__op__eql" [te, tw]
-      out := out ++ [.act true false (if first then .ifStart c else .elseIf c)] ++ (← compileNodes env kids)
+      out := out ++ [.act true false (if first then .ifStart c else .elseIf c)] ++ (← compileNodesF fuel env kids)
       first := false
     -- the *last* default branch wins (elseBranch is overwritten in the loop)
     match (whens.filter (·.1.isNone)).getLast? with
-    | some (_, kids) => out := out ++ [.act true false .else_] ++ (← compileNodes env kids)
+    | some (_, kids) => out := out ++ [.act true false .else_] ++ (← compileNodesF fuel env kids)
     | none => pure ()
     pure (out ++ [.act true false .end_])
   | .mixinDef .. => pure []          -- definitions are collected separately (renderState.mixin)
@@ -289,31 +314,22 @@ partial def compileNode (env : CEnv) (n : Node) : CM (List Frag) := do
     let argArr := TExpr.fcall "__op__array" targs
     let attrMap := TExpr.fcall "__op__map_params" tattrs.flatten
     -- the block (if its rendering is non-empty) is defined as its own template; the counter is threaded by position
-    let sub ← compileNodes env kids
+    let sub ← compileNodesF fuel env kids
     if sub.isEmpty then
       pure [.act false false (.template (.lit ("mixin_" ++ name)) (some (.fcall "__op__array" [argArr, attrMap, nullCall])))]
     else
       pure [.blockDef name sub,
             .act false false (.template (.lit ("mixin_" ++ name)) (some (.fcall "__op__array" [argArr, attrMap, .fcall "__freeze" [.lit (.str ("\x00" ++ name))]])))]
 
-partial def compileNodes (env : CEnv) (ns : List Node) : CM (List Frag) := do
-  pure (← ns.mapM (compileNode env)).flatten
+def compileNodesF : Nat → CEnv → List Node → CM (List Frag)
+  | 0, _, _ => .error (.domain "document nested deeper than the model's fuel")
+  | fuel + 1, env, ns => do
+  pure (← ns.mapM (compileNodeF fuel env)).flatten
 
-partial def compileAttrs (env : CEnv) (attrs : List Attr) (ablocks : List String) : CM (List Frag) := do
-  if attrs.isEmpty && ablocks.isEmpty then pure [] else
-  let as ← attrs.mapM fun a => do
-    if a.mustEscape then
-      let t ← match ← compileExpr env a.val with
-        | some t => pure t
-        | none => pure nullCall    -- a literal null: `(__attr "n" null true)`
-      pure (TExpr.fcall "__attr" [.lit (.str a.name), t, .lit (.bool true)])
-    else
-      match a.val with
-      | .str s => pure (TExpr.fcall "__attr" [.lit (.str a.name), .lit (.str ("\"" ++ s ++ "\"")), .lit (.bool false)])
-      | _ => .error (.domain "unescaped attribute with a non-literal value (value becomes the source text)")
-  let bs := ablocks.map fun b => TExpr.fcall "__and_attrs" [.var b]
-  pure [.act false false (.print (.fcall "__attrs" (as ++ bs)) false)]
 end
+
+def compileNode (env : CEnv) (n : Node) : CM (List Frag) := compileNodeF nodeFuel env n
+def compileNodes (env : CEnv) (ns : List Node) : CM (List Frag) := compileNodesF nodeFuel env ns
 
 /-- merge adjacent texts, then apply the trim markers as lexText / lexLeftDelim / lexRightDelim do -/
 def mergeTexts : List Frag → List Frag
@@ -338,47 +354,56 @@ inductive Term where
   | eof | end_ | else_ | elseIf (e : TExpr) | define (name : String)
   deriving Inhabited
 
-partial def parseList (fs : List Frag) : CM (List TNode × Term × List Frag) := do
+mutual
+/-- recursion on the fuel (total); `parseList` supplies more fuel than there are fragments -/
+def parseListF : Nat → List Frag → CM (List TNode × Term × List Frag)
+  | 0, _ => .error (.domain "template longer than the model's fuel")
+  | fuel + 1, fs => do
   match fs with
   | [] => pure ([], .eof, [])
   | .text s :: rest => do
-    let (ns, t, r) ← parseList rest
+    let (ns, t, r) ← parseListF fuel rest
     pure ((if s.isEmpty then ns else .text s :: ns), t, r)
-  | .blockDef _ _ :: rest => parseList rest
+  | .blockDef _ _ :: rest => parseListF fuel rest
   | .act _ _ a :: rest =>
     match a with
-    | .print e esc => do let (ns, t, r) ← parseList rest; pure (.print e esc :: ns, t, r)
-    | .assign x e => do let (ns, t, r) ← parseList rest; pure (.assign x e :: ns, t, r)
-    | .template nm arg => do let (ns, t, r) ← parseList rest; pure (.template nm arg :: ns, t, r)
+    | .print e esc => do let (ns, t, r) ← parseListF fuel rest; pure (.print e esc :: ns, t, r)
+    | .assign x e => do let (ns, t, r) ← parseListF fuel rest; pure (.assign x e :: ns, t, r)
+    | .template nm arg => do let (ns, t, r) ← parseListF fuel rest; pure (.template nm arg :: ns, t, r)
     | .end_ => pure ([], .end_, rest)
     | .else_ => pure ([], .else_, rest)
     | .elseIf e => pure ([], .elseIf e, rest)
     | .define nm => pure ([], .define nm, rest)
     | .ifStart c => do
-      let (node, rest') ← parseIf c rest
-      let (ns, t, r) ← parseList rest'
+      let (node, rest') ← parseIfF fuel c rest
+      let (ns, t, r) ← parseListF fuel rest'
       pure (node :: ns, t, r)
     | .range decl e => do
-      let (body, t, rest') ← parseList rest
+      let (body, t, rest') ← parseListF fuel rest
       match t with
       | .end_ => do
-        let (ns, t2, r) ← parseList rest'
+        let (ns, t2, r) ← parseListF fuel rest'
         pure (.range decl e body :: ns, t2, r)
       | _ => .error (.parse "range: expected end")
-where
-  parseIf (c : TExpr) (rest : List Frag) : CM (TNode × List Frag) := do
-    let (thn, t, rest') ← parseList rest
+
+def parseIfF : Nat → TExpr → List Frag → CM (TNode × List Frag)
+  | 0, _, _ => .error (.domain "template longer than the model's fuel")
+  | fuel + 1, c, rest => do
+    let (thn, t, rest') ← parseListF fuel rest
     match t with
     | .end_ => pure (.ite c thn [], rest')
     | .else_ => do
-      let (els, t2, rest'') ← parseList rest'
+      let (els, t2, rest'') ← parseListF fuel rest'
       match t2 with
       | .end_ => pure (.ite c thn els, rest'')
       | _ => .error (.parse "expected end")
     | .elseIf c2 => do
-      let (inner, rest'') ← parseIf c2 rest'
+      let (inner, rest'') ← parseIfF fuel c2 rest'
       pure (.ite c thn [inner], rest'')
     | _ => .error (.parse "unexpected EOF")
+end
+
+def parseList (fs : List Frag) : CM (List TNode × Term × List Frag) := parseListF (2 * fs.length + 2) fs
 
 structure Compiled where
   main : List TNode
